@@ -1013,8 +1013,216 @@ def check_parent_objects_brought_over(ck, R):
     ck.need(n >= 1, "no DataSource implementation with a reference() method found")
 
 
+# ---- R9: what one store() call computes travels with the object being stored, never on the strategy ------------
+
+def _place(fa, target, at):
+    """Where an assignment target lives: ('param', name, attr) an attribute / item of an object the caller handed
+    in, ('shared', text) the strategy object itself, something reached through it, a class or a module-level name,
+    ('local', text) an object this call made, None for a plain local name."""
+    if isinstance(target, ast.Name):
+        for s in fa.stmts((ast.Global, ast.Nonlocal)):
+            if target.id in s.names:
+                return ("shared", "the module-level name `%s`" % target.id)
+        return None
+    if isinstance(target, ast.Starred):
+        return _place(fa, target.value, at)
+    root = target
+    while isinstance(root, (ast.Attribute, ast.Subscript)):
+        root = root.value
+    text = A.norm(target)
+    if isinstance(root, ast.Call):
+        # type(self).x / self.__class__ ... / something().x
+        inner = A.norm(root)
+        return ("shared", "`%s`" % text) if "self" in _names(root) or "cls" in _names(root) else ("local", inner)
+    if not isinstance(root, ast.Name):
+        return ("local", text)
+    if not fa.df.is_local(root.id):
+        return ("shared", "`%s` (reached through the module-level / class name `%s`)" % (text, root.id))
+    try:
+        x = fa.xnorm(root, at)
+    except Exception:  # noqa
+        x = root.id
+    head = x.split(".")[0].split("[")[0].split("(")[0]
+    if head in ("self", "cls") or x.startswith(("type(self)", "self.__class__")):
+        return ("shared", "`%s` (the strategy object, one per codec, shared by every call)" % text)
+    if head in fa.fi.params and x == head:
+        return ("param", head, target.attr if isinstance(target, ast.Attribute) and target.value is root else None)
+    if head in fa.fi.params:
+        return ("param", head, None)
+    return ("local", text)
+
+
+def _writes(fa):
+    """[(statement, target, value, cfg node)] for every binding a function makes other than to a plain local:
+    assignment targets (tuple targets paired with tuple values) and setattr(o, 'a', v)."""
+    out = []
+    for s in fa.stmts((ast.Assign, ast.AnnAssign, ast.AugAssign)):
+        ids = fa.nodes(s)
+        if not ids:
+            continue
+        pairs = PM._flat_targets(s) if not isinstance(s, ast.AugAssign) else [(s.target, s.value)]
+        for (t, v) in pairs:
+            out.append((s, t, v if v is not None else getattr(s, "value", None), ids[0]))
+    for s in fa.stmts(ast.Expr):
+        c = s.value
+        if isinstance(c, ast.Call) and isinstance(c.func, ast.Name) and c.func.id == "setattr" and len(c.args) == 3 and A.const_str(c.args[1]) and fa.nodes(s):
+            t = ast.copy_location(ast.Attribute(value=c.args[0], attr=A.const_str(c.args[1]), ctx=ast.Store()), c)
+            out.append((s, t, c.args[2], fa.nodes(s)[0]))
+    return out
+
+
+def _lazy_init(fa, stmt, target):
+    """`if self.x is None: self.x = <something that does not depend on the call's arguments>`"""
+    conds = fa.conditions(stmt)
+    txt = A.norm(target)
+    return bool(conds) and all(("%s is None" % txt, True) in c for c in conds)
+
+
+def _strategy_classes(ck):
+    base = ck.repo.try_cls("storage_base.Codec.Strategy")
+    ck.need(base is not None, "storage_base.Codec.Strategy not found")
+    return ck.repo.subclasses(base, strict=False)
+
+
+def _attrs_read_off(fa, expr, at, param):
+    """Attributes of `param` that the value of `expr` is read from: p.a (through aliases), getattr(p, 'a'[, d])."""
+    out = set()
+    for a in fa.deps(expr, at):
+        if a.startswith("attr:%s." % param):
+            out.add(a[len("attr:%s." % param):].split(".")[0])
+    try:
+        e = fa.expand(expr, at)
+    except Exception:  # noqa
+        e = expr
+    for x in ast.walk(e):
+        if isinstance(x, ast.Call) and isinstance(x.func, ast.Name) and x.func.id == "getattr" and len(x.args) in (2, 3) and A.norm(x.args[0]) == param \
+                and A.const_str(x.args[1]):
+            out.add(A.const_str(x.args[1]))
+    return out
+
+
+def check_call_state_travels_with_object(ck, R):
+    """There is ONE strategy object per result type and codec, i.e. per storage backend: every store() call of every
+    thread goes through it, and storing a partition whose values are partitions re-enters it.  What a call computes
+    for the object at hand (the serialised merged index, on its way from store() to encode()) therefore travels
+    with that object or as an argument; parked on the strategy (or anything reached through it, a class, a module
+    variable) it is overwritten by the next call and the index of ANOTHER partition is written as this one's."""
+    ck.rule(R, "what a store() call computes for one partition (the serialised merged index handed from store() to encode()) is carried by the "
+               "object being stored or passed as an argument, never kept on the shared strategy object", 3)
+    # (a) no strategy method other than the constructor assigns state of the strategy that a strategy method reads
+    classes = _strategy_classes(ck)
+    read_fields = set()
+    for cls in classes:
+        for m in cls.methods.values():
+            for x in A.walk_body(m.node):
+                f = self_attr(x) if isinstance(x, ast.Attribute) and isinstance(x.ctx, ast.Load) else None
+                if f:
+                    read_fields.add(f)
+    for cls in classes:
+        bad = []
+        for (name, m) in sorted(cls.methods.items()):
+            if name == "__init__":
+                continue
+            fa = FA(ck, m)
+            for (s, t, v, at) in _writes(fa):
+                pl = _place(fa, t, at)
+                if pl is None or pl[0] != "shared":
+                    continue
+                f = self_attr(t) if isinstance(t, ast.Attribute) else None
+                if f is not None and f not in read_fields:
+                    continue  # written, never read: cannot reach a result
+                if isinstance(t, ast.Attribute) and _lazy_init(fa, s, t) and v is not None and not any(a.startswith("param:") and a != "param:self" for a in fa.deps(v, at)):
+                    continue
+                bad.append((fa, s, pl[1]))
+        ck.ob(R, "%s::keeps-no-call-state" % cls.qual, not bad,
+              "%s keeps nothing of a call on the strategy object" % cls.name if not bad else
+              "%s assigns %s in the course of a call: the strategy is shared by all store / load calls of the backend (other threads, partitions "
+              "nested in partitions), so the next call replaces the value before this one has used it and one result is written with another "
+              "result's data" % (bad[0][0].qual, bad[0][2]), bad[0][0].where(bad[0][1]) if bad else A.loc(cls, cls.node))
+    # (b) the serialised index goes from store() to the writer on the partition being stored
+    fa = FA(ck, PM.STORE)
+    OBJ = "obj"
+    ck.need(OBJ in fa.fi.params, "%s: parameter `obj` (the partition being stored) not found" % fa.qual)
+    sers = fa.calls("_serialize_index")
+    ck.need(sers, "%s: no call of _serialize_index" % fa.qual)
+
+    def carries(v, at):
+        return v is not None and "call:_serialize_index" in fa.deps(v, at)
+
+    carriers, parked = {}, []
+    for (s, t, v, at) in _writes(fa):
+        if not carries(v, at):
+            continue
+        pl = _place(fa, t, at)
+        if pl is None or pl[0] == "local":
+            continue
+        if pl[0] == "param" and pl[1] == OBJ and pl[2]:
+            carriers[pl[2]] = s
+        else:
+            parked.append((s, pl[1] if pl[0] == "shared" else "`%s` (not the partition being stored)" % A.norm(t)))
+    direct = []
+    for c in fa.calls():
+        if c in sers or not fa.nodes(c):
+            continue
+        for a_ in list(c.args) + [k.value for k in c.keywords]:
+            a_ = a_.value if isinstance(a_, ast.Starred) else a_
+            if carries(a_, fa.nodes(c)[0]) and A.call_attr(c) not in ("setattr",):
+                direct.append(c)
+    ok = not parked and (bool(carriers) or bool(direct))
+    ck.ob(R, fa.key(None, "index-bytes-travel-with-object"), ok,
+          "the serialised index is handed on %s" % ("on the partition being stored (%s)" % sorted(carriers) if carriers else "as an argument") if ok else
+          ("the serialised index of the partition being stored is put into %s: a second store() through the same strategy (another thread, "
+           "another function of the cluster) replaces it before encode() has read it, and this partition is written with the other one's keys"
+           % parked[0][1] if parked else "nothing hands the serialised index to the writer"),
+          fa.where(parked[0][0]) if parked else fa.where(sers[0]))
+    owner = fa.fi.cls
+    enc = ck.repo.find_method(owner, "encode") if owner is not None else None
+    if enc is None or ck.repo.is_abstract(enc):
+        ck.need(bool(direct), "%s: store() parks the index for encode(), and no encode() is defined" % fa.qual)
+        return
+    fe = FA(ck, enc)
+    ep = [p for p in fe.fi.params if p != "self"]
+    ck.need(ep, "%s: parameter for the object to encode not found" % fe.qual)
+    P = ep[0]
+    mutable_fields = set()
+    for cls in classes:
+        for (name, m) in cls.methods.items():
+            if name == "__init__":
+                continue
+            fm = FA(ck, m)
+            for (_s, t, _v, _at) in _writes(fm):
+                f = self_attr(t) if isinstance(t, ast.Attribute) else None
+                if f:
+                    mutable_fields.add(f)
+    why, where = None, fe.where()
+    n_ret = 0
+    for r in fe.returns():
+        ids = fe.nodes(r)
+        if not ids or r.value is None:
+            continue
+        n_ret += 1
+        atoms = fe.deps(r.value, ids[0])
+        shared = sorted(a for a in atoms if a.startswith("attr:self.") and a[len("attr:self."):].split(".")[0] in mutable_fields)
+        got = _attrs_read_off(fe, r.value, ids[0], P)
+        if shared:
+            why, where = "encode() returns `%s`, state of the shared strategy that store() calls overwrite, not what belongs to the object it is " \
+                         "asked to encode" % shared[0][5:], fe.where(r)
+        elif carriers and not (got & set(carriers)):
+            if "call:_serialize_index" in atoms and ("param:" + P) in atoms:
+                continue  # serialises what the object carries
+            why, where = "encode() reads %s of the object while store() leaves the serialised index in %s: stale or missing bytes are written as the " \
+                         "partition's index" % (sorted(got) or "nothing", sorted(carriers)), fe.where(r)
+        elif not carriers and ("param:" + P) not in atoms:
+            why, where = "what encode() returns (`%s`) does not come from the object it is asked to encode" % A.short(r.value, 50), fe.where(r)
+    if n_ret == 0 and not direct:
+        why = "encode() returns nothing"
+    ck.ob(R, fe.key(None, "encode-reads-what-store-left"), why is None,
+          "encode() returns what store() left on the object being stored" if why is None else why, where)
+
+
 def check(ck):
     from .memo import check_new_memo_tables
+    ck.run(check_call_state_travels_with_object, ck, "C17.R9")
     ck.run(check_parent_objects_brought_over, ck, "C17.R8")
     ck.run(check_new_memo_tables, ck, "C17.M1", ('partition', 'storage_base', 'storage_filesystem'))
     from .c07 import check_who_may_delete
